@@ -144,6 +144,16 @@ func c04Execute(c c04Case, chain []c04Icpt) (runs []*c04Run, eff [][]c04Icpt) {
 							return s
 						}
 						return nil
+					case token.FUNCTION:
+						if s := p.ParseFunctionStatement(); s != nil {
+							return s
+						}
+						return nil
+					case token.FOR:
+						if s := p.ParseForStatement(); s != nil {
+							return s
+						}
+						return nil
 					}
 				}
 				return next()
